@@ -2083,6 +2083,13 @@ func VerifC06AddClass(err error) string        { return v6AddClass(err) }
 func VerifC06ParseClass(err error) string      { return v6ParseClass(err) }
 func VerifC06Input(c VerifC06Call) []byte      { in, _ := base64.StdEncoding.DecodeString(c.In); return in }
 
+// VerifC06DropNotifiers removes the subscribers a wired Network registered (their receivers need running engines: NATS);
+// the legs in other packages look at admission, not at event publication
+func VerifC06DropNotifiers(s State) {
+	st := s.(*state)
+	st.notifiers.Range(func(k, _ any) bool { st.notifiers.Delete(k); return true })
+}
+
 // VerifC06Observe: the shared part of the observation for a State created elsewhere (refs / payload hashes as hex)
 func VerifC06Observe(s State, refs []string, phs []string) string {
 	var rs, ps []hash.SHA256Hash
